@@ -114,6 +114,7 @@ theorem sSel_np (sel : ESel) (recv : GoVal) : (sSel sel recv).np = true := by
   | path p => unfold sSel; exact selectOn_np _ _ (fun x => sPath_np p x x)
   | logic l => unfold sSel; exact selectOn_np _ _ (fun x => sLogic_np l x x)
   | bad => rfl
+  | dyn => rfl
   | none => rfl
 termination_by structural sel
 
